@@ -17,7 +17,7 @@ Section GlobalPanic.
     intros HG HC Hs. inversion Hs as [g0 a hint e Ha Hadm]; subst.
     pose proof (step_np c a honest members_nodup Ha (gw g) byz_bound hint e (g a) (HG a Ha) (HC a Ha)
                   (msg_adm_ev_adm c honest members_nodup g a e Hadm)) as S.
-    destruct (step c a true hint e (g a)) as [[s' o] r]. simpl. destruct S as [_ Hc'].
+    destruct (step c a src_dq hint e (g a)) as [[s' o] r]. simpl. destruct S as [_ Hc'].
     intros b Hb. unfold gupd. destruct (N.eqb_spec b a) as [->|Hne]; [exact Hc'|exact (HC b Hb)].
   Qed.
 
@@ -30,13 +30,13 @@ Section GlobalPanic.
 
   Theorem c15_core_no_panic g a hint e k :
     greach c honest g -> honest a = true -> msg_adm honest (gw g) e ->
-    snd (step c a true hint e (g a)) <> RPanic k.
+    snd (step c a src_dq hint e (g a)) <> RPanic k.
   Proof.
     intros Hr Ha Hadm.
     pose proof (step_np c a honest members_nodup Ha (gw g) byz_bound hint e (g a)
                   (greach_inv c honest members_nodup byz_bound g Hr a Ha) (greach_closed g Hr a Ha)
                   (msg_adm_ev_adm c honest members_nodup g a e Hadm)) as S.
-    destruct (step c a true hint e (g a)) as [[s' o] r]. simpl. destruct S as [N _]. apply N.
+    destruct (step c a src_dq hint e (g a)) as [[s' o] r]. simpl. destruct S as [N _]. apply N.
   Qed.
 End GlobalPanic.
 Check c15_core_no_panic.
